@@ -58,6 +58,9 @@ def designs(tier):
     out.append({'d': 'clockdiv', 'n': 2})
     out.append({'d': 'dualmem'})
     out.append({'d': 'moore'})
+    out.append({'d': 'resetchain'})
+    out.append({'d': 'gatedchain'})
+    out.append({'d': 'twodelay'})
     for k in (2, 3):
         out.append({'d': 'multidrv', 'k': k})
     if T:
@@ -165,6 +168,34 @@ def build(d, sub=None):
         desync = I('desync')
         ClockGenerationAndRecovery(hw, 'ck', tx, desync, pulse, sample, 2 * d['n'], 1)
         UARTSerializer(hw, 'ser', ready, valid, v, pulse, tx)
+    elif k == 'resetchain':
+        # registers with individual reset / enable ports feeding plain registers (and vice versa), 2-bit data
+        x, r0, r2, e1 = I('x', 2), I('rst0'), I('rst2'), I('e1')
+        q0, q1, q2, q3 = hw.wire('q0', 2), hw.wire('q1', 2), hw.wire('q2', 2), hw.wire('q3', 2)
+        py4hw.Reg(hw, 'r0', x, q0, reset=r0, reset_value=2)
+        py4hw.Reg(hw, 'r1', q0, q1, enable=e1)
+        py4hw.Reg(hw, 'r2', q1, q2, reset=r2, reset_value=1)
+        py4hw.Reg(hw, 'r3', q2, q3)
+    elif k == 'gatedchain':
+        # a stage in a gated domain whose enable is a register output of the base domain
+        x, enx = I('x'), I('enx')
+        q0, q1, q2, en = hw.wire('q0'), hw.wire('q1'), hw.wire('q2'), hw.wire('en')
+        py4hw.Reg(hw, 'enreg', enx, en)
+        py4hw.Reg(hw, 'r0', x, q0)
+        g = Logic(hw, 'g')
+        g.clockDriver = py4hw.ClockDriver('gclk', base=hw.clockDriver, enable=en)
+        g.addIn('d', q0)
+        g.addOut('q', q1)
+        py4hw.Reg(g, 'r', q0, q1)
+        py4hw.Reg(hw, 'r2', q1, q2)
+    elif k == 'twodelay':
+        # two instances of the same structural block: their internal register wires carry the same local names
+        a, b = I('a'), I('b')
+        py4hw.DelayLine(hw, 'dl_a', a, None, None, hw.wire('ra'), 2)
+        py4hw.DelayLine(hw, 'dl_b', b, None, None, hw.wire('rb'), 3)
+        s2 = hw.wire('s2')
+        py4hw.Xor2(hw, 'x', hw._wires['ra'], hw._wires['rb'], s2)
+        py4hw.Reg(hw, 'rs', s2, hw.wire('qs'))
     elif k == 'moore':
         # a leaf that keeps its state in attributes only: clock() advances it (no prepare), propagate() decodes it
         en = I('en')
